@@ -29,6 +29,7 @@ import (
 	ocispec "github.com/opencontainers/image-spec/specs-go/v1"
 
 	"github.com/projecteru2/core/engine/docker"
+	"github.com/projecteru2/core/resource/plugins/cpumem"
 	enginetypes "github.com/projecteru2/core/engine/types"
 	cpumemtypes "github.com/projecteru2/core/resource/plugins/cpumem/types"
 	resourcetypes "github.com/projecteru2/core/resource/types"
@@ -189,7 +190,230 @@ func coqInts(v []int) string {
 	return vh.List(s)
 }
 
+// ---------------------------------------------------------------- chain
+
+// caseTerm prints one Docker.case: parameters decoded from engine params + observed settings.
+func caseTerm(path string, p params, s settings) string {
+	cores := append([]int(nil), p.Cores...)
+	sort.Ints(cores)
+	return fmt.Sprintf("(mkCase %s (mkParams %s %s %s %s %s) %s (mkObs %s %s %s %s %s %s %s %s %s))",
+		path, vh.F64(p.CPU), vh.Z(p.Memory), coqInts(cores), vh.Str(p.NUMA), vh.Bool(p.Remap), vh.ZI(p.NCPU),
+		s.Outcome, vh.Z(s.CPUQuota), vh.Z(s.CPUPeriod), vh.Z(s.CPUShares), coqInts(s.CpusetCpus), vh.Str(s.CpusetMems),
+		vh.Z(s.Memory), vh.Z(s.MemorySwap), vh.Z(s.Reservation))
+}
+
+// run the engine on raw engine parameters exactly as the plugin returned them
+func engineOn(path string, ncpu int, raw resourcetypes.RawParams) (s settings) {
+	var captured dockercontainer.Resources
+	called := false
+	defer func() {
+		if r := recover(); r != nil {
+			s = settings{Outcome: "ErrOther"}
+		}
+	}()
+	e := newEngine(params{NCPU: ncpu}, &captured, &called)
+	var err error
+	res := resourcetypes.Resources{"cpumem": raw}
+	if path == "PCreate" {
+		_, err = e.VirtualizationCreate(context.Background(), &enginetypes.VirtualizationCreateOptions{
+			EngineParams: res, Name: "w", Image: "img", Labels: map[string]string{}})
+	} else {
+		err = e.VirtualizationUpdateResource(context.Background(), "cid", res)
+	}
+	if err != nil {
+		return settings{Outcome: errClass(err)}
+	}
+	if !called {
+		return settings{Outcome: "ErrOther"}
+	}
+	return fromResources(captured)
+}
+
+func decodeEP(raw resourcetypes.RawParams, ncpu int) (params, *cpumemtypes.EngineParams) {
+	ep := &cpumemtypes.EngineParams{}
+	if err := mapstructure.Decode(raw, ep); err != nil {
+		panic(err)
+	}
+	p := params{CPU: ep.CPU, Memory: ep.Memory, NUMA: ep.NUMANode, Remap: ep.Remap, NCPU: ncpu}
+	for k := range ep.CPUMap {
+		v, err := strconv.Atoi(k)
+		if err != nil {
+			v = -1
+		}
+		p.Cores = append(p.Cores, v)
+	}
+	sort.Ints(p.Cores)
+	return p, ep
+}
+
+func fragPieces(m cpumemtypes.CPUMap, base int) int {
+	for _, v := range m {
+		if v > 0 && v < base {
+			return v
+		}
+	}
+	return 0
+}
+
+func sameMap(a, b cpumemtypes.CPUMap) bool {
+	if len(a) != len(b) {
+		return false
+	}
+	for k, v := range a {
+		if b[k] != v {
+			return false
+		}
+	}
+	return true
+}
+
+func testChain(t *testing.T) {
+	r := vh.New(t, "C31", "chain")
+	r.Coq("From Verif Require Import Base.GoFloat Engine.Docker.", "Docker.chain", "Docker.cagree", "Docker.cok")
+	r.Extra("Close Scope Z_scope. (* Base.GoFloat opens it; string bytes are nat literals *)")
+	rng := r.Rng
+	const MiB = int64(1 << 20)
+	const base = 100
+	ctx := context.Background()
+	cfg := coretypes.Config{
+		Etcd:      coretypes.EtcdConfig{Prefix: "/verif-c31"},
+		Scheduler: coretypes.SchedulerConfig{MaxShare: -1, ShareBase: base},
+	}
+	pl, err := cpumem.NewPlugin(ctx, cfg, t)
+	if err != nil {
+		t.Fatalf("NewPlugin: %v", err)
+	}
+	emit := func(step, path string, ncpu int, raw resourcetypes.RawParams, wr *cpumemtypes.WorkloadResource, class string) {
+		p, ep := decodeEP(raw, ncpu)
+		s := engineOn(path, ncpu, raw)
+		consistent := true
+		frag := 0
+		if wr != nil {
+			consistent = ep.CPU == wr.CPULimit && ep.Memory == wr.MemoryLimit && ep.NUMANode == wr.NUMANode
+			if !ep.Remap {
+				consistent = consistent && sameMap(ep.CPUMap, wr.CPUMap)
+				frag = fragPieces(wr.CPUMap, base)
+			} else {
+				consistent = consistent && len(wr.CPUMap) == 0 // only unbound workloads are remapped
+			}
+		}
+		term := fmt.Sprintf("(mkChain %s %s %s %s)", caseTerm(path, p, s), vh.ZI(frag), vh.ZI(base), vh.Bool(consistent))
+		desc := map[string]any{"step": step, "path": path, "class": class, "engine_params": raw, "workload_resource": wr, "observed": s, "fragment_pieces": frag}
+		r.Count("step=" + step)
+		r.Count("class=" + class)
+		r.Count("outcome=" + s.Outcome)
+		if frag > 0 {
+			r.Count("bound-with-fragment")
+		}
+		r.Add(term, desc, map[string]any{"stream": "chain", "step": step, "class": class}, s.Outcome == "Ok")
+	}
+	parseWR := func(raw resourcetypes.RawParams) *cpumemtypes.WorkloadResource {
+		wr := &cpumemtypes.WorkloadResource{}
+		if err := wr.Parse(raw); err != nil {
+			t.Fatalf("parse workload resource: %v", err)
+		}
+		return wr
+	}
+	n := r.N(120, 1500)
+	for i := 0; i < n; i++ {
+		name := fmt.Sprintf("c31-%d-%d", r.Seed, i)
+		ncpu := 2 + rng.Intn(7)
+		nodeRaw := resourcetypes.RawParams{"cpu": ncpu, "memory": int64(64) << 30}
+		if rng.Intn(3) == 0 && ncpu%2 == 0 { // two NUMA nodes
+			var a, b []string
+			for c := 0; c < ncpu; c++ {
+				if c < ncpu/2 {
+					a = append(a, strconv.Itoa(c))
+				} else {
+					b = append(b, strconv.Itoa(c))
+				}
+			}
+			nodeRaw["numa-cpu"] = []string{strings.Join(a, ","), strings.Join(b, ",")}
+			nodeRaw["numa-memory"] = []string{"32G", "32G"}
+		}
+		if _, err := pl.AddNode(ctx, name, nodeRaw, nil); err != nil {
+			t.Fatalf("AddNode: %v", err)
+		}
+		bind := rng.Intn(100) < 60
+		var cpu float64
+		switch x := rng.Intn(100); {
+		case x < 25:
+			cpu = float64(1 + rng.Intn(ncpu-1))
+		case x < 90:
+			cpu = float64(1+rng.Intn((ncpu-1)*100)) / 100
+		default:
+			cpu = 0
+		}
+		if bind && cpu == 0 {
+			cpu = 0.5
+		}
+		mem := int64(4+rng.Intn(4096)) * MiB
+		if rng.Intn(10) == 0 {
+			mem = 0
+		}
+		req := resourcetypes.RawParams{"cpu-bind": bind, "cpu-request": cpu, "cpu-limit": cpu, "memory-request": mem, "memory-limit": mem}
+		class := "unbound"
+		if bind {
+			class = "bound"
+		}
+		dresp, err := pl.CalculateDeploy(ctx, name, 1, req)
+		if err != nil || len(dresp.EnginesParams) != 1 {
+			r.Count("deploy-refused")
+			continue
+		}
+		wr := parseWR(dresp.WorkloadsResource[0])
+		emit("deploy", "PCreate", ncpu, dresp.EnginesParams[0], wr, class)
+		// account the workload, then realloc it
+		if _, err := pl.SetNodeResourceUsage(ctx, name, nil, nil, []resourcetypes.RawParams{dresp.WorkloadsResource[0]}, true, true); err != nil {
+			t.Fatalf("SetNodeResourceUsage: %v", err)
+		}
+		var dcpu float64
+		switch rng.Intn(3) {
+		case 0:
+			dcpu = float64(rng.Intn(100)) / 100
+		case 1:
+			dcpu = -float64(rng.Intn(int(cpu*100)+1)) / []float64{100, 100, 100, 200}[rng.Intn(4)]
+		}
+		dmem := int64(rng.Intn(512)) * MiB
+		rreq := resourcetypes.RawParams{"keep-cpu-bind": bind && rng.Intn(4) > 0, "cpu-bind": bind && rng.Intn(4) > 0,
+			"cpu-request": dcpu, "cpu-limit": dcpu, "memory-request": dmem, "memory-limit": dmem}
+		cur := dresp.WorkloadsResource[0]
+		if rresp, err := pl.CalculateRealloc(ctx, name, cur, rreq); err == nil {
+			wr2 := parseWR(rresp.WorkloadResource)
+			c2 := "unbound"
+			if len(wr2.CPUMap) > 0 {
+				c2 = "bound"
+			}
+			emit("realloc", "PUpdate", ncpu, rresp.EngineParams, wr2, c2)
+			if _, err := pl.SetNodeResourceUsage(ctx, name, nil, nil, []resourcetypes.RawParams{rresp.DeltaResource}, true, true); err == nil {
+				cur = rresp.WorkloadResource
+			}
+		} else {
+			r.Count("realloc-refused")
+		}
+		// remap: only unbound workloads get parameters
+		mresp, err := pl.CalculateRemap(ctx, name, map[string]resourcetypes.RawParams{"w": cur})
+		if err != nil {
+			t.Fatalf("CalculateRemap: %v", err)
+		}
+		if ep, ok := mresp.EngineParamsMap["w"]; ok {
+			emit("remap", "PUpdate", ncpu, ep, parseWR(cur), "remap")
+		} else {
+			r.Count("remap-none(bound)")
+		}
+		if _, err := pl.RemoveNode(ctx, name); err != nil {
+			t.Fatalf("RemoveNode: %v", err)
+		}
+	}
+	r.Finish("end to end: nodes of 2-8 cores (one third with two NUMA nodes) added to the real cpumem plugin on embedded etcd; a request (60% cpu-bind, cpu 0 / whole / 0.01 grid, memory 0 or MiB multiples) goes through CalculateDeploy -> VirtualizationCreate, then (usage recorded) CalculateRealloc with a cpu/memory delta (keep-bind / bind / neither) -> VirtualizationUpdateResource, then CalculateRemap -> VirtualizationUpdateResource; the engine receives the plugin's raw engine parameters unchanged; non-trivial = the engine accepted them")
+}
+
 func TestC31(t *testing.T) {
+	t.Run("settings", testSettings)
+	t.Run("chain", testChain)
+}
+
+func testSettings(t *testing.T) {
 	r := vh.New(t, "C31", "settings")
 	r.Coq("From Verif Require Import Base.GoFloat Engine.Docker.", "Docker.case", "Docker.agree", "Docker.ok")
 	r.Extra("Close Scope Z_scope. (* Base.GoFloat opens it; string bytes are nat literals *)")
